@@ -23,7 +23,7 @@
 (* is also passed through Check, so the behaviours exported from here      *)
 (* (hist) are by construction accepted by the trace specification.         *)
 (***************************************************************************)
-EXTENDS FBRef
+EXTENDS FBRef, Json
 SE == INSTANCE SequencesExt
 
 CONSTANTS Targets,      \* build_file targets (prefix-free set of paths)
@@ -314,7 +314,20 @@ T_tiny == {<<"d", "y">>}
 Q_tiny == {<<"d">>, <<"d", "y">>, <<"x">>}
 X_tiny == {<<"x">>, <<"d">>, <<"d", "y">>, <<"k">>}
 V_tiny == {TNone, TInt("1")}
+Q_q == {<<"d">>, <<"d", "y">>}
+X_q == {<<"d">>, <<"d", "y">>, <<"k">>}
+V_none == {TNone}
+T_sim == {<<"x">>, <<"d", "y">>, <<"d", "e", "z">>}
+Q_sim == {<<"x">>, <<"d">>, <<"d", "y">>, <<"d", "e">>, <<"d", "e", "z">>, <<"u">>}
+X_sim == {<<"x">>, <<"d">>, <<"d", "y">>, <<"d", "e">>, <<"d", "e", "z">>, <<"u">>, <<"d", "u">>, <<"k">>}
 
 MCView == <<s, memo, preds, ne, nc, xc, bad>>        \* hist is an observation variable
 Bound == TLCGet("level") <= 60
+
+(* spec -> code: complete behaviours are exported (as JSON) to be replayed on *)
+(* the real FileBuilder by harness/fromtlc.py                                *)
+HistDone ==
+  /\ Len(hist) > 0 /\ s.ph = "idle" /\ s.builds = MaxBuilds
+  /\ LET h == hist[Len(hist)] IN h.h = "clean" \/ (h.h = "stmt" /\ h.lvl = 0)
+Export == HistDone => PrintT(<<"HIST", ToJson(hist)>>)
 =========================================================================
